@@ -19,6 +19,7 @@ def run(chk, tier):
     gcalls.check_required_rules(chk)
     gcalls.check_order(chk)
     gguard.check_memo_caches(chk)
+    gguard.check_scans(chk)
     gguard.check_returns(chk)
     ghaz.check_main(chk)
     gtab.check(chk, gen.facts(), which=("keys", "sizes", "classes"))
